@@ -89,6 +89,7 @@ type system struct {
 	rUnbound [3]bool
 	lSeq     [3]uint16
 	rSeq     [3]uint16
+	warm     [3]bool // jitterbuffer: the warm-up run of stream k has been delivered
 	pending  []pendingOp
 	interval time.Duration
 }
@@ -259,9 +260,24 @@ func (sys *system) apply(sym int) (string, error) {
 		return "urm", err
 	case sReadR1, sReadR2:
 		rm := s.Remotes[k]
+		warm := 0
+		if sys.c.Kind == "jitterbuffer" && !sys.warm[k] {
+			// the jitter buffer starts playing after 50 packets: the first read of a stream is preceded by a
+			// run of 50 consecutive ones, so that the gaps below meet a buffer that is emitting
+			sys.warm[k], warm = true, 52
+		}
+		first := sys.rSeq[k] + 1
+		sys.rSeq[k] += uint16(warm)
 		sys.rSeq[k] += 2 // leave gaps so that NACK generators have something to ask for
 		q := sys.rSeq[k]
 		done, err := sys.runOp(name, false, func() {
+			for j := 0; j < warm; j++ {
+				if j == 1 {
+					continue // the second number of the run never arrives: playout reaches the gap at once
+				}
+				h, p := hk.Shape(0, rm.Info.SSRC, first+uint16(j), uint32(first+uint16(j))*3000)
+				_, _, _ = rm.ReadRTP(hk.MarshalRTP(h, p))
+			}
 			h, p := hk.Shape(0, rm.Info.SSRC, q, uint32(q)*3000)
 			if k == 1 {
 				_ = h.SetExtension(hk.TwccExtID, []byte{byte(q >> 8), byte(q)})
